@@ -70,7 +70,7 @@ def _param_only_in_part(F):
     """a supplied parameter that is referenced only inside an included part"""
     sup = {s["p"] for s in F["supN"]} | {s["p"] for s in F["supS"]}
     inpart, outside = set(), set()
-    (inpart if "ops" in F["parts"] else outside).update(o["bulk"]["p"] for o in F["ops"])
+    (inpart if "ops" in F["parts"] else outside).update(p for o in F["ops"] for p in (o["bulk"]["p"], o["xp"]["p"]))
     tgt = inpart if "corpora" in F["parts"] else outside
     for k in F["corpora"]:
         tgt.update(d["count"]["p"] for d in k["docs"])
@@ -80,7 +80,7 @@ def _param_only_in_part(F):
             tgt.update(el[k]["p"] for k in tg.EL_NUM)
             for t in el["tasks"]:
                 tgt.update(t[k]["p"] for k in tg.TASK_NUM)
-                tgt.add(t["name"]["p"])
+                tgt.update((t["name"]["p"], t["xp"]["p"]))
     return bool((sup & inpart) - outside)
 
 
@@ -109,7 +109,7 @@ def _signature(case, clauses, out_kind):
 def cases_from_dump(ctx, dump, rnd, quotas, default_quota):
     """Per verdict label (valid / the rule broken) about a quota of the states of the exhaustive run is replayed on the real
     loader; the selection depends only on the state and the seed, not on the order in which TLC found the states."""
-    picked, counts, n = tg.sample_dump(dump, quotas, default_quota, ctx.seed)
+    picked, counts, n = tg.sample_dump(dump, quotas, default_quota, ctx.seed, keep_special=("none",) if ctx.quick else ())
     cases = [make_case("s%d-%s" % (k, st["violated"]), "tlc-state", tg.from_state(st["f"]), rnd, st["violated"]) for k, st in enumerate(picked)]
     return cases, counts, n
 
@@ -145,7 +145,7 @@ def random_cases(seed, n):
 
 
 def _minimal(**task_fields):
-    t = {"name": dict(tg.NOSTR), "opk": "str", "op": "bulk", "type": "", "unit": "", "tags": []}
+    t = {"name": dict(tg.NOSTR), "opk": "str", "op": "bulk", "type": "", "unit": "", "tags": [], "xp": dict(tg.NOX)}
     for k in tg.TASK_NUM:
         t[k] = dict(tg.NOVAL)
     for k, v in task_fields.items():
@@ -161,7 +161,7 @@ def probe_loader(root):
     depend on the switches."""
     F1, F2 = _minimal(it=5, tp=10), _minimal(wi=5, wtp=10)
     F3 = _minimal()
-    F3.update(ops=[{"name": "n1", "type": "bulk", "bulk": {"v": 50, "p": "p1"}}], parts=["ops"], tight=True, supN=[{"p": "p1", "v": 7}])
+    F3.update(ops=[{"name": "n1", "type": "bulk", "bulk": {"v": 50, "p": "p1"}, "xp": dict(tg.NOX)}], parts=["ops"], tight=True, supN=[{"p": "p1", "v": 7}])
     res = []
     for F in (F1, F2, F3):
         tg.render(F, root, {"collect": "tight" if F["tight"] else "spaced"})
@@ -203,6 +203,7 @@ def run(ctx, out):
     out.assumptions = [
         "Jinja2, the json module and the jsonschema library are trusted (jsonschema's self-check of the constant track schema is run once per distinct schema, not per load)",
         "the track format is exercised through the constructs the harness renders: literal values, {{ p | default(v) }} parameters (numbers, task names, inside strings), "
+        "the helper macro rally.exists_set_param (with / without default_value, comma=True / False; user values absent, 0, false, '', truthy), "
         "rally.collect(parts=...) includes with and without blanks inside the braces, one and two levels deep (second-level pattern relative to the including part's directory), operations by name / by type / inline, single-string or list tags, shuffled keys, "
         "optional version / description; index / template bodies, custom parameter sources and track plugins are not exercised",
         "'track syntax or configuration error' = exceptions.InvalidSyntax (incl. loader.TrackSyntaxError), exceptions.TrackConfigError, exceptions.ConfigError; any other exception class "
@@ -243,7 +244,7 @@ def run(ctx, out):
     lap("model checking and self-tests done")
     # ---- S2C: reachable files -> real track directories -> real loader
     dump_file = dump + ".dump" if os.path.exists(dump + ".dump") else dump
-    cases, per_rule, nstates = cases_from_dump(ctx, dump_file, rnd, {"none": 100000} if ctx.quick else {"none": 25000}, 90 if ctx.quick else 2000)
+    cases, per_rule, nstates = cases_from_dump(ctx, dump_file, rnd, {"none": 1200} if ctx.quick else {"none": 25000}, 80 if ctx.quick else 2000)
     if nstates != res.distinct:
         raise tlc.MachineryError("dump has %d states, TLC reported %d" % (nstates, res.distinct))
     missing = [r for r in L1_RULES if per_rule.get(r, 0) == 0]
